@@ -3,9 +3,10 @@ import Liquid.InsertionSort
 /-!
 # The order in which the library visits the entries of a Go map: `values.SortedMapKeys` (`values/sort.go`)
 
-Go's own map iteration order is random. Every place where the library iterates a map first calls
-`values.SortedMapKeys(rv)` — `makeIterator` (`tags/iteration_tags.go`: `for` and `tablerow` over a map)
-and `Convert(·, []any)` (`values/convert.go`: the receiver of every array filter) — which is
+Go's own map iteration order is random. The two places where the library walks a map whose order reaches the
+output call `values.SortedMapKeys(rv)` first — `makeIterator` (`tags/iteration_tags.go`: `for` and `tablerow`
+over a map) and `Convert(·, []any)` (`values/convert.go`: the receiver of every array filter); the other map
+iterations of the library copy into a fresh map or test all entries (T5, `MapIterFacts.lean`) — which is
 
 ```go
 keys := m.MapKeys()
@@ -16,7 +17,7 @@ This file is that comparator, clause by clause, on the model's values (integers 
 with an integer kind, floats are exact rationals, strings are byte lists), and a stable sort by it.
 A `GoVal.map kt vt kvs` holds its entries `kvs` in *some* order (the order the line protocol delivered
 them in; nothing is assumed about it): every place of the model that iterates a map calls
-`sortedMapEntries`, as every such place of the code calls `SortedMapKeys`.
+`sortedMapEntries`, as those two places of the code call `SortedMapKeys`.
 
 `Proofs/MapOrder.lean`: on keys of classes 1–3 (booleans, numbers, strings) that are pairwise distinct
 as Go map keys — two keys of one Go map always are — `keyLess` is a strict total order, so the sorted
@@ -25,9 +26,10 @@ list is the same for every order of the entries.
 ## Keys of class 4
 
 Keys that are neither booleans, numbers nor strings (a nil interface, structs, arrays, pointers, …) are
-ordered after all others, and among themselves by `fmt.Sprint(a) < fmt.Sprint(b)`, which the model
-does not evaluate (addresses; and two different keys can print alike, which leaves them in Go's random
-order — see DESIGN §7.3). A map with *one* such key is still ordered by the class comparison alone;
+ordered after all others, and among themselves by `fmt.Sprint(a) < fmt.Sprint(b)` and, where two different
+keys print alike, by a form that names the type of everything they hold (`keySyntax`; repaired in /repo
+08ac245 + 7d98ddf, DESIGN §7.1), which the model does not evaluate (pointer keys print as addresses). A map
+with *one* such key is still ordered by the class comparison alone;
 a map with two or more is answered `unmodelled` (`sortedMapEntries`).
 -/
 
